@@ -42,8 +42,23 @@ def check_new(ctx, P):
     if not ok:
         ctx.fail("clamp", "r", "r is not built as five limb expressions", where=fn.where(), key="clamp:r")
     else:
+        # through the term evaluator first (loads moved into a private helper, shifts computed from an index): the MIR
+        # expression tree is the fallback
+        from .. import termbits
+        tb_r = tb_p = None
+        try:
+            rr = ssa.Eval(P, fn, inline=lambda n: n.endswith("read_u32_le")).run()
+            if isinstance(rr.ret, ssa.Agg) and isinstance(rr.ret.get("r"), ssa.Agg):
+                TB = termbits.Bits(termbits.byte_leaf({"arg1"}))
+                tb_r = [TB.bits(rr.ret["r"].get_elem(i), 32) for i in range(5)]
+                if isinstance(rr.ret.get("pad"), ssa.Agg):
+                    tb_p = [TB.bits(rr.ret["pad"].get_elem(i), 32) for i in range(4)]
+        except (KeyError, IndexError, TypeError, AttributeError, ValueError):
+            tb_r = tb_p = None
         for i, e in enumerate(r[2]):
             bits = bitprov.eval_bits(fn, e, 32)
+            if tb_r is not None and None not in tb_r[i]:
+                bits = list(tb_r[i])
             want = []
             for j in range(32):
                 k = 26 * i + j
@@ -58,6 +73,11 @@ def check_new(ctx, P):
     if ok:
         for i, e in enumerate(p[2]):
             bits = bitprov.eval_bits(fn, e, 32)
+            try:
+                if tb_p is not None and None not in tb_p[i]:
+                    bits = list(tb_p[i])
+            except NameError:
+                pass
             ok = ok and bits == [("arg1", 128 + 32 * i + j) for j in range(32)]
     ctx.check(ok, "clamp", "pad", "pad = LE words of key[16..32]", "Poly1305::new pad is not the four little-endian words of key[16..32]", where=fn.where(), key="clamp:pad")
     z = d["h"][0] == "rep" and d["h"][1][:2] == ("const", 0) and d["leftover"][:2] == ("const", 0) and d["finalized"][:2] == ("const", 0) and d["buffer"][0] == "rep" and d["buffer"][1][:2] == ("const", 0)
